@@ -14,6 +14,7 @@ import (
 	"github.com/verily-src/fhirpath-go/fhirpath/verifharness/fx"
 	"github.com/verily-src/fhirpath-go/fhirpath/verifharness/gen"
 	"github.com/verily-src/fhirpath-go/fhirpath/verifharness/model"
+	"google.golang.org/protobuf/proto"
 )
 
 // C13 — conversion functions are mutually consistent and round-trip through strings.
@@ -21,10 +22,10 @@ import (
 func init() {
 	core.Register(&core.Property{
 		ID:   "C13",
-		Rule: "items = System value pool (every type, precision, boundary) ∪ FHIR primitive and complex elements ∪ strings from a grammar of valid / near-valid renderings (incl. ' 1', '+1', '1e3', 'T', 'yes', '2020-13-01', '24:00', \"5 'mg'\", '5', '5 days'); for every (item, target T in the 8 System types): convertsToT ⇔ toT non-empty, unconvertible ⇒ empty, result is of type T, toT idempotent, x.toString().toT() = x for x of type T, success set = FHIRPath conversion table (DESIGN A.4). distinct_nontrivial = distinct (item, target) pairs the conversion table decides as convertible, excluding identity conversions",
+		Rule: "items = System value pool (every type, precision, boundary) ∪ FHIR primitive and complex elements (fixed carriers and every element of generated resources of all 146 R4 types, model value taken from the FHIR JSON) ∪ seeded one/two-edit mutants of valid renderings ∪ strings from a grammar of valid / near-valid renderings (incl. ' 1', '+1', '1e3', 'T', 'yes', '2020-13-01', '24:00', \"5 'mg'\", '5', '5 days'); for every (item, target T in the 8 System types): convertsToT ⇔ toT non-empty, unconvertible ⇒ empty, result is of type T, toT idempotent, x.toString().toT() = x for x of type T, success set = FHIRPath conversion table (DESIGN A.4). distinct_nontrivial = distinct (item, target) pairs the conversion table decides as convertible, excluding identity conversions",
 		Assumptions: []string{"the conversion table of DESIGN A.4 (from N1 §5.5) decides strings by regular expressions; renderings the table does not mention (trailing 'T' on partial DateTimes, Decimal 1.00 -> Boolean) are only subject to the consistency laws"},
 		Run:    runC13,
-		Checks: map[string]func(*core.Env, []json.RawMessage){"conv": replayC13},
+		Checks: map[string]func(*core.Env, []json.RawMessage){"conv": replayC13, "conv-res": replayC13Res, "conv-str": replayC13Str},
 		Threshold: func(m *core.Merged) []string {
 			var r []string
 			for _, t := range c13Targets {
@@ -35,7 +36,7 @@ func init() {
 					r = append(r, "no convertible item observed for "+t)
 				}
 			}
-			for _, k := range []string{"unconvertible", "roundtrip", "item:fhir", "item:complex", "item:string-grammar"} {
+			for _, k := range []string{"unconvertible", "roundtrip", "item:fhir", "item:complex", "item:string-grammar", "item:fhir-gen", "item:complex-gen", "item:string-mutant", "gen-kind:Boolean", "gen-kind:Integer", "gen-kind:Decimal", "gen-kind:String", "gen-kind:Date", "gen-kind:DateTime", "gen-kind:Time", "gen-kind:Complex"} {
 				if m.Cover[k] == 0 {
 					r = append(r, "never observed: "+k)
 				}
@@ -71,6 +72,9 @@ func convertible(m model.CVal, target string) string {
 	}
 	if m.Kind == "Complex" {
 		return "no"
+	}
+	if m.Kind == "Unknown" {
+		return ""
 	}
 	if m.Kind == target {
 		return "yes"
@@ -197,7 +201,10 @@ func c13Eval(env *core.Env, src string, x any) fx.Res {
 func c13Check(env *core.Env, idx int, target string) {
 	defer env.In("conv", idx, target)()
 	items := c13Items(env)
-	it := items[idx]
+	c13CheckItem(env, items[idx], target)
+}
+
+func c13CheckItem(env *core.Env, it c13Item, target string) {
 	env.Case()
 	env.Cover("target:" + target)
 	env.Cover("item:" + it.Class)
@@ -251,6 +258,13 @@ func c13Check(env *core.Env, idx int, target string) {
 		}
 		if conv.Bool3() != "true" {
 			env.Violatef("C13/"+cls+"/convertible/convertsTo-not-true", "%s.convertsTo%s(): expected true, observed %s", desc, target, trunc(conv.Short(), 120))
+		}
+	}
+	// toString() of an element the library treats as complex answering the Boolean false: one defect, one signature
+	if target == "String" && it.Class == "fhir-gen" && it.M.Kind == "Unknown" && len(to.Items) == 1 && to.Items[0].K == "Boolean" && to.Items[0].T == "false" {
+		if _, isMsg := it.Val.(proto.Message); isMsg && !gen.IsPrimitive(it.Val.(proto.Message).ProtoReflect().Descriptor()) {
+			env.Violatef("C13/Complex->String/unconvertible/value-instead-of-empty:Boolean(false)", "%s.toString() returned the Boolean false", desc)
+			return
 		}
 	}
 	// (a) consistency for every item, also undecided ones
@@ -363,6 +377,165 @@ func c13Items(env *core.Env) []c13Item {
 	return out
 }
 
+// c13NodeModel derives the comparison-model value of a generated resource's element from its FHIR JSON.
+func c13NodeModel(nd *model.Node) model.CVal {
+	unknown := model.CVal{Kind: "Unknown"}
+	if nd.MD == nil {
+		return unknown
+	}
+	if !nd.IsPrim {
+		switch string(nd.MD.Name()) {
+		case "Quantity", "Age", "Duration", "SimpleQuantity", "Count", "Distance", "MoneyQuantity":
+			return unknown // FHIR quantities map to System Quantity when they carry a value: laws only
+		}
+		return model.CVal{Kind: "Complex"}
+	}
+	if nd.JSON == nil {
+		return unknown // value-less primitive (extension only)
+	}
+	name := string(nd.MD.Name())
+	switch jv := nd.JSON.(type) {
+	case bool:
+		return model.CVal{Kind: "Boolean", B: jv}
+	case json.Number:
+		txt := jv.String()
+		if strings.ContainsAny(txt, "eE") {
+			return unknown
+		}
+		r, ok := model.ParseNum(txt)
+		if !ok {
+			return unknown
+		}
+		if name == "Decimal" {
+			return model.CVal{Kind: "Decimal", N: r, S: strings.TrimPrefix(txt, "-")}
+		}
+		if !model.FitsInt32(r) {
+			return unknown
+		}
+		return model.CVal{Kind: "Integer", N: r}
+	case string:
+		switch name {
+		case "Date":
+			if t, ok := model.ParseTemporal("Date", jv); ok {
+				return model.CVal{Kind: "Date", T: t}
+			}
+			return unknown
+		case "DateTime", "Instant":
+			if t, ok := model.ParseTemporal("DateTime", jv); ok {
+				return model.CVal{Kind: "DateTime", T: t}
+			}
+			return unknown
+		case "Time":
+			if t, ok := model.ParseTemporal("Time", jv); ok {
+				return model.CVal{Kind: "Time", T: t}
+			}
+			return unknown
+		case "Decimal":
+			return unknown
+		}
+		return model.CVal{Kind: "String", S: jv}
+	}
+	return unknown
+}
+
+// c13Resource checks every element of a generated resource against the eight targets.
+func c13Resource(env *core.Env, tn string, seed uint64, rich bool, only int) {
+	defer env.In("conv-res", tn, seed, rich, only)()
+	res, _ := genResource(tn, seed, rich)
+	tree, err := model.BuildTree(res)
+	if err != nil {
+		env.Skip("resource-not-marshallable")
+		return
+	}
+	nodes := tree.All()
+	step := 1
+	if only < 0 && len(nodes) > 160 {
+		step = len(nodes)/160 + 1
+	}
+	for i, nd := range nodes {
+		if nd.Msg == nil || nd.Synth != nil || (only >= 0 && i != only) || (only < 0 && i%step != 0) {
+			continue
+		}
+		m := c13NodeModel(nd)
+		cls := "fhir-gen"
+		if m.Kind == "Complex" {
+			cls = "complex-gen"
+		}
+		env.Cover("gen-kind:" + m.Kind)
+		it := c13Item{Key: fmt.Sprintf("%s(seed %d) node %d %s %s", tn, seed, i, strings.Join(nd.PathTo(), "."), nd.MD.Name()), Class: cls, Val: nd.Msg, M: m}
+		for _, t := range c13Targets {
+			c13CheckItem(env, it, t)
+		}
+	}
+}
+
+func replayC13Res(env *core.Env, a []json.RawMessage) {
+	var tn string
+	var seed uint64
+	var rich bool
+	only := -1
+	json.Unmarshal(a[0], &tn)
+	json.Unmarshal(a[1], &seed)
+	json.Unmarshal(a[2], &rich)
+	json.Unmarshal(a[3], &only)
+	c13Resource(env, tn, seed, rich, only)
+}
+
+// c13Mutants: seeded single/double edits of the grammar strings over the alphabet of the renderings.
+func c13Mutants(env *core.Env, count int) []string {
+	base := []string{"1", "-1", "+1", "1.0", "0.0", "10.50", "2147483647", "-2147483648", "true", "false", "t", "yes", "no", "y", "n",
+		"2020", "2020-01", "2020-01-02", "2020-12-31", "2020-02-29", "2020-01-02T10", "2020-01-02T10:30", "2020-01-02T10:30:00", "2020-01-02T10:30:00.123", "2020-01-02T10:30:00Z", "2020-01-02T10:30:00+05:30", "2020-01-02T10:30:00.123-11:00",
+		"10", "10:30", "10:30:00", "10:30:00.123", "23:59:59.999", "5 'mg'", "5.5 'kg'", "5 days", "1 year", "1 'wk'", "5", "-5.0 'mg'"}
+	alphabet := []string{"0", "1", "2", "3", "5", "6", "9", "+", "-", ".", ":", "T", "Z", "'", " ", "e", "a", "m", "g", "y", "é", "/", "@"}
+	rng := env.Rng("c13-mutants")
+	seen := map[string]bool{}
+	var out []string
+	for k := 0; k < count*3 && len(out) < count; k++ {
+		b := []rune(base[rng.Intn(len(base))])
+		for e := 1 + rng.Intn(2); e > 0; e-- {
+			pos := rng.Intn(len(b) + 1)
+			switch rng.Intn(4) {
+			case 0: // insert
+				ins := []rune(alphabet[rng.Intn(len(alphabet))])
+				b = append(append(append([]rune{}, b[:pos]...), ins...), b[pos:]...)
+			case 1: // delete
+				if pos < len(b) {
+					b = append(append([]rune{}, b[:pos]...), b[pos+1:]...)
+				}
+			case 2: // replace
+				if pos < len(b) {
+					b = append(append(append([]rune{}, b[:pos]...), []rune(alphabet[rng.Intn(len(alphabet))])...), b[pos+1:]...)
+				}
+			default: // duplicate a character
+				if pos < len(b) {
+					b = append(append(append([]rune{}, b[:pos]...), b[pos]), b[pos:]...)
+				}
+			}
+		}
+		str := string(b)
+		if !seen[str] {
+			seen[str] = true
+			out = append(out, str)
+		}
+	}
+	return out
+}
+
+func c13Mutant(env *core.Env, str string) {
+	defer env.In("conv-str", str)()
+	env.Cover("item:string-mutant")
+	it := c13Item{model.QuoteStr(str), "string-mutant", system.String(str), model.CVal{Kind: "String", S: str}}
+	for _, t := range c13Targets {
+		c13CheckItem(env, it, t)
+	}
+}
+
+func replayC13Str(env *core.Env, a []json.RawMessage) {
+	var str string
+	json.Unmarshal(a[0], &str)
+	c13Mutant(env, str)
+}
+
 func runC13(env *core.Env) {
 	items := c13Items(env)
 	n := 0
@@ -372,6 +545,23 @@ func runC13(env *core.Env) {
 			if env.Mine(n) {
 				c13Check(env, i, t)
 			}
+		}
+	}
+	// every element of generated resources of every type
+	per := env.Size(1, 12)
+	for k := 0; k < per; k++ {
+		for _, md := range gen.ResourceTypes() {
+			n++
+			if env.Mine(n) {
+				c13Resource(env, string(md.Name()), env.Seed*1000+uint64(k), k%2 == 1, -1)
+			}
+		}
+	}
+	// mutated renderings
+	for _, str := range c13Mutants(env, env.Size(600, 20000)) {
+		n++
+		if env.Mine(n) {
+			c13Mutant(env, str)
 		}
 	}
 }
